@@ -319,14 +319,132 @@ Definition c_unresolvable : Z := 2.
 Definition c_error : Z := 3.
 Definition c_skip : Z := 4.
 
+(* ---------- GPU topology scopes (allocator_gpu.go: GetGPUTopologyScope, allocateByDeviceTopology,
+   allocateFromScope). The scope tree has three levels: node, NUMA node, PCIe switch. *)
+Fixpoint insert_nat (x : nat) (l : list nat) : list nat :=
+  match l with
+  | [] => [x]
+  | y :: t => if Nat.ltb x y then x :: l else if Nat.eqb x y then l else y :: insert_nat x t
+  end.
+Definition sort_nats (l : list nat) : list nat := fold_right insert_nat [] l.
+Fixpoint insert_z (x : Z) (l : list Z) : list Z :=
+  match l with
+  | [] => [x]
+  | y :: t => if x <? y then x :: l else if x =? y then l else y :: insert_z x t
+  end.
+Definition sort_zs (l : list Z) : list Z := fold_right insert_z [] l.
+
+Definition gpu_infos (infos : list devinfo) : list devinfo :=
+  filter (fun i => Nat.eqb (di_type i) 0) infos.
+(* GetGPUTopologyScope returns nil unless there is a GPU and every GPU carries topology *)
+Definition gpu_topo_ok (infos : list devinfo) : bool :=
+  match gpu_infos infos with
+  | [] => false
+  | g => forallb (fun i => 0 <=? di_numa i) g
+  end.
+(* a PCIe scope is its sorted minors; a NUMA scope is its sorted minors and its PCIe scopes *)
+Definition numa_scopes (infos : list devinfo) : list (list nat * list (list nat)) :=
+  let g := gpu_infos infos in
+  map (fun a =>
+         let ga := filter (fun i => di_numa i =? a) g in
+         (sort_nats (map di_minor ga),
+          map (fun b => sort_nats (map di_minor (filter (fun i => di_pcie i =? b) ga)))
+              (sort_zs (map di_pcie ga))))
+      (sort_zs (map di_numa g)).
+Definition root_minors (infos : list devinfo) : list nat := sort_nats (map di_minor (gpu_infos infos)).
+
+(* what allocateFromScope is given *)
+Record topo_ctx := mkCtx {
+  tc_n : nat;              (* numberOfGPUs *)
+  tc_shared : bool;        (* gpuShared *)
+  tc_scored : bool;        (* a scorer is present (Reserve) *)
+  tc_req : res;            (* requestsPerGPU *)
+  tc_view : ledger;        (* the filtered nodeDevice *)
+  tc_scope_total : devres; (* scope.minorsResources: totals as of the last refresh *)
+  tc_used : list nat       (* minors hashed into deviceUsedMinorsHash *)
+}.
+Record scope_result := mkSR { sr_minors : list nat; sr_cum : Z; sr_depth : Z; sr_score : Z }.
+
+Definition topo_sat (c : topo_ctx) (m : nat) : bool :=
+  rle (tc_req c) (ores (dget (free (tc_view c)) m))
+  && match dget (total (tc_view c)) m with Some g => negb (ris_zero g) | None => false end.
+(* scoreDevice is called with (request, free, total): the roles of total and free are swapped *)
+Definition topo_score (c : topo_ctx) (m : nat) : Z :=
+  if tc_shared c && tc_scored c
+  then score_device 0 (tc_req c) (ores (dget (free (tc_view c)) m)) (ores (dget (tc_scope_total c) m))
+  else 0.
+Definition scope_hit (c : topo_ctx) (minors : list nat) : Z :=
+  if existsb (fun m => memn m (tc_used c)) minors then 1 else 0.
+(* the candidate loop of one scope *)
+Definition best_shared (c : topo_ctx) (sat : list nat) : nat * Z :=
+  fold_left (fun b m => if snd b <? topo_score c m then (m, topo_score c m) else b) sat (0%nat, -1).
+Definition leaf_alloc (c : topo_ctx) (minors : list nat) (depth cum : Z) : option scope_result :=
+  let sat := filter (topo_sat c) minors in
+  if tc_shared c then
+    match sat with
+    | [] => None
+    | _ => let b := best_shared c sat in Some (mkSR [fst b] cum depth (snd b))
+    end
+  else if Nat.ltb (length sat) (tc_n c) then None
+       else Some (mkSR (firstn (tc_n c) sat) cum depth (-1)).
+Definition better (shared : bool) (b r : scope_result) : scope_result :=
+  let b1 := if (sr_depth b <? sr_depth r) || ((sr_depth b =? sr_depth r) && (sr_cum b <? sr_cum r))
+            then r else b in
+  if shared && (sr_depth b1 =? sr_depth r) && (sr_cum b1 =? sr_cum r) && (sr_score b1 <? sr_score r)
+  then r else b1.
+Definition best_of (shared : bool) (rs : list (option scope_result)) : option scope_result :=
+  fold_left (fun b o => match o with
+                        | None => b
+                        | Some r => match b with None => Some r | Some b' => Some (better shared b' r) end
+                        end) rs None.
+Definition pcie_alloc (c : topo_ctx) (depth cum : Z) (minors : list nat) : option scope_result :=
+  if Nat.ltb (length minors) (tc_n c) then None
+  else leaf_alloc c minors (depth + 1) (cum + scope_hit c minors).
+Definition numa_alloc (c : topo_ctx) (depth cum : Z) (sc : list nat * list (list nat))
+  : option scope_result :=
+  let minors := fst sc in
+  if Nat.ltb (length minors) (tc_n c) then None
+  else let d := depth + 1 in
+       let k := cum + scope_hit c minors in
+       match best_of (tc_shared c) (map (pcie_alloc c d k) (snd sc)) with
+       | Some b => Some b
+       | None => leaf_alloc c minors d k
+       end.
+Definition root_alloc (c : topo_ctx) (minors : list nat) (numas : list (list nat * list (list nat)))
+  : option scope_result :=
+  if Nat.ltb (length minors) (tc_n c) then None
+  else let k := scope_hit c minors in
+       match best_of (tc_shared c) (map (numa_alloc c 1 k) numas) with
+       | Some b => Some b
+       | None => leaf_alloc c minors 1 k
+       end.
+
+(* getRealUsed: used minors outside the filtered total, and minors used in the filtered view *)
+Definition present_minors {A} (d : list (option A)) : list nat :=
+  map fst (filter (fun x => match snd x with Some _ => true | None => false end)
+                  (combine (seq 0 (length d)) d)).
+Definition real_used (orig_used : devres) (v : ledger) : list nat :=
+  filter (fun m => match dget (total v) m with None => true | Some _ => false end) (present_minors orig_used)
+  ++ present_minors (used v).
+
 (* allocation of one requested type on the current ledgers (AutopilotAllocator.Allocate:
-   Prepare, filterNodeDevice, allocateDevices; GPU: GPUAllocator without partition table and
-   without topology information falls through to defaultAllocateDevices) *)
+   Prepare, filterNodeDevice, allocateDevices). GPU: GPUAllocator without shared-resource
+   templates and without a partition table: allocateByDeviceTopology when every GPU of the
+   Device CR carries topology information (and the request is not multi-GPU shared), otherwise
+   defaultAllocateDevices. *)
+Definition desired_count (count : Z) : nat := if count =? 0 then 1%nat else Z.to_nat count.
 Definition alloc_type (scored : bool) (ls : list ledger) (infos : list devinfo) (t : nat)
-           (per : res) (count : Z) : option (list alloc) :=
+           (per : res) (count : Z) (shared : bool) : option (list alloc) :=
   let v := filter_view (ledger_of ls t) (minors_of infos t) in
-  let desired := if count =? 0 then 1%nat else Z.to_nat count in
-  default_allocate t scored v per desired desired.
+  let desired := desired_count count in
+  if Nat.eqb t 0 && gpu_topo_ok infos && negb (shared && (1 <? count)) then
+    let c := mkCtx desired shared scored per v (build_total infos 0)
+                   (real_used (used (ledger_of ls t)) v) in
+    match root_alloc c (root_minors infos) (numa_scopes infos) with
+    | Some r => Some (map (fun m => (m, per)) (sr_minors r))
+    | None => None
+    end
+  else default_allocate t scored v per desired desired.
 
 Inductive alloc_result :=
 | ASkip | AFail (code : Z) | ADone (da : dallocs).
@@ -343,7 +461,7 @@ Definition allocate (ls : list ledger) (infos : list devinfo) (rq : rawreq) : al
        then AFail c_unresolvable                                  (* Prepare: no device of the type *)
   else
     let per_type := map (fun t => match treq_of rq t with
-                                  | TReq per count _ => Some (alloc_type true ls infos t per count)
+                                  | TReq per count sh => Some (alloc_type true ls infos t per count sh)
                                   | _ => None end) type_ids in
     if existsb (fun o => match o with Some None => true | _ => false end) per_type
     then AFail c_unsched
